@@ -91,6 +91,9 @@ type Result struct {
 // original to complete and receives the same results.
 // The return value shared indicates whether v was given to multiple callers.
 func (g *Group[K, V]) Do(key K, fn func() (V, error)) (v V, err error, shared bool) {
+	if verifOn {
+		verifAt(VpSfLock, g, key, nil)
+	}
 	g.mu.Lock()
 	if g.m == nil {
 		g.m = make(map[K]*call[V])
@@ -98,7 +101,13 @@ func (g *Group[K, V]) Do(key K, fn func() (V, error)) (v V, err error, shared bo
 	if c, ok := g.m[key]; ok {
 		_ = c.dups.Add(1)
 		g.mu.Unlock()
+		if verifOn {
+			verifAt(VpSfJoined, g, key, c)
+		}
 		c.wg.Wait()
+		if verifOn {
+			verifAt(VpSfWoken, g, key, c)
+		}
 		var perr *panicError
 		if errors.As(c.err, &perr) {
 			panic(c.err)
@@ -110,6 +119,9 @@ func (g *Group[K, V]) Do(key K, fn func() (V, error)) (v V, err error, shared bo
 		err = c.err
 		n := c.dups.Add(-1)
 		if n == 0 {
+			if verifOn {
+				verifAt(VpSfPut, g, key, c, 0)
+			}
 			g.callPool.Put(c)
 		}
 		return v, err, true
@@ -118,6 +130,9 @@ func (g *Group[K, V]) Do(key K, fn func() (V, error)) (v V, err error, shared bo
 	defer func() {
 		n := c.dups.Add(-1)
 		if n == 0 {
+			if verifOn {
+				verifAt(VpSfPut, g, key, c, 1)
+			}
 			g.callPool.Put(c)
 		}
 	}()
@@ -125,6 +140,9 @@ func (g *Group[K, V]) Do(key K, fn func() (V, error)) (v V, err error, shared bo
 	c.wg.Add(1)
 	g.m[key] = c
 	g.mu.Unlock()
+	if verifOn {
+		verifAt(VpSfLeader, g, key, c)
+	}
 
 	g.doCall(c, key, fn)
 	return c.val, c.err, true
@@ -143,11 +161,17 @@ func (g *Group[K, V]) doCall(c *call[V], key K, fn func() (V, error)) {
 			c.err = errGoexit
 		}
 
+		if verifOn {
+			verifAt(VpSfFinish, g, key, c)
+		}
 		g.mu.Lock()
 		defer g.mu.Unlock()
 		c.wg.Done()
 		if g.m[key] == c {
 			delete(g.m, key)
+		}
+		if verifOn {
+			verifAt(VpSfFinished, g, key, c)
 		}
 		var perr *panicError
 		if errors.As(c.err, &perr) {
